@@ -53,6 +53,8 @@ type sworld struct {
 	// chunkOf: file schema blob -> its single content chunk (a file is indexed only once both arrived)
 	chunkOf  map[blob.Ref]blob.Ref
 	features map[string]int // what the generator actually produced (evidence)
+	// epochSeqMid: see worldOpts.epochSeq
+	epochSeqMid int
 }
 
 // atCase: permanode pn had `value` more than once under attr, then a del-attribute of that value
@@ -105,6 +107,63 @@ func genSearchWorld(rng *rand.Rand, label string, nPN int, tiedTimes bool, exoti
 // camliPath:x, seeAlso) whose value names a blob that exists nowhere, next to edges to real
 // permanodes (a member that was never uploaded / lives on another server).
 func genSearchWorldOpt(rng *rand.Rand, label string, nPN int, tiedTimes bool, exotic bool, dangling bool) *sworld {
+	return genSearchWorldX(rng, label, nPN, tiedTimes, exotic, worldOpts{dangling: dangling})
+}
+
+// worldOpts: optional world families.  None of them draws from rng unless it is switched on, so
+// the worlds of the other families are what they were before the option existed.
+type worldOpts struct {
+	// dangling: see genSearchWorldOpt
+	dangling bool
+	// epoch: the claim dates straddle 1970-01-01T00:00:00Z (claims one second before and after it;
+	// a claim dated within the epoch second itself is not a valid claim for perkeep), and some
+	// permanodes' creation time is EXACTLY the Unix epoch (date attributes in several zone notations,
+	// a camliContent file whose modtime is the epoch) or 1 ns / 1 s / 999 ms next to it.
+	epoch bool
+	// far: explicit date attributes (ordinary attribute values: any RFC 3339 instant) before 1678 and
+	// after 2262, i.e. outside what fits in an int64 of nanoseconds since 1970, incl. the instants
+	// right at both ends of that range, year 1 and year 9999, two of them tied across zone notations.
+	far bool
+	// epochSeq (with epoch, distinct dates): the ordinal of the claim that is dated one second before
+	// the epoch; 0 = unknown yet (a first generation pass measures sworld.epochSeqMid, the ordinal
+	// reached in the middle of genEpochFeatures, see genEpochWorld)
+	epochSeq int
+}
+
+// genEpochWorld generates an epoch world twice from the same random stream: the first pass measures
+// where in the sequence of claims the epoch features are written, the second one places the epoch
+// there, so that modification times (the date of a permanode's latest claim) fall on both sides too.
+func genEpochWorld(mk func() *rand.Rand, label string, nPN int, tied bool) *sworld {
+	o := worldOpts{epoch: true}
+	if !tied {
+		o.epochSeq = genSearchWorldX(mk(), label, nPN, tied, false, o).epochSeqMid
+	}
+	return genSearchWorldX(mk(), label, nPN, tied, false, o)
+}
+
+// unixEpoch is 1970-01-01T00:00:00Z.
+var unixEpoch = time.Unix(0, 0).UTC()
+
+// farDateValues: date attribute values outside (and right at the ends of) the years 1678..2262.
+var farDateValues = []string{
+	"1455-02-23T00:00:00Z",
+	"2500-01-01T00:00:00Z",
+	"0001-06-15T12:00:00Z",
+	"9999-12-31T23:59:59.999999999Z",
+	"1455-02-23T02:00:00+02:00",      // the same instant as the first one
+	"1677-09-21T00:12:43Z",           // 145 ms before the smallest instant an int64 of nanoseconds holds
+	"1677-09-21T00:12:44Z",           // just inside
+	"2262-04-11T23:47:16.854775807Z", // the largest such instant
+	"2262-04-11T23:47:16.854775808Z", // 1 ns after it
+	"1215-06-15T00:00:00Z",
+	"2500-01-01T00:00:00-08:00",
+	"2262-04-11T23:47:16Z",
+	"9999-12-31T23:59:59+14:00",
+	"1601-01-01T00:00:00Z",
+}
+
+func genSearchWorldX(rng *rand.Rand, label string, nPN int, tiedTimes bool, exotic bool, o worldOpts) *sworld {
+	dangling := o.dangling
 	w := &sworld{typ: map[blob.Ref]string{}, size: map[blob.Ref]int{}, del: map[blob.Ref]bool{}, files: map[blob.Ref]*sfile{}, dirs: map[blob.Ref]*sdir{}, parent: map[blob.Ref][]blob.Ref{}, chunkOf: map[blob.Ref]blob.Ref{}, features: map[string]int{}}
 	w.owner = hw.NewSigner(1)
 	w.w = &hw.World{Kind: map[blob.Ref]string{}, Deps: map[blob.Ref][]blob.Ref{}, Signers: []*hw.Signer{w.owner}}
@@ -199,8 +258,19 @@ func genSearchWorldOpt(rng *rand.Rand, label string, nPN int, tiedTimes bool, ex
 	if exotic {
 		base = time.Date(1930+rng.Intn(30), 3, 1, 0, 0, 0, 0, time.UTC) // pre-1970
 	}
+	if o.epoch {
+		// distinct dates: base + k*3701 s reaches epoch-1s at k = 3*nPN, epoch+3700s right after
+		k := o.epochSeq
+		if k == 0 {
+			k = 3 * nPN
+		}
+		base = unixEpoch.Add(-time.Second - time.Duration(k)*3701*time.Second)
+	}
 	seq := 0
 	tiedPool := []time.Time{base, base.Add(time.Hour), base.Add(time.Hour + 500*time.Millisecond), base.Add(48 * time.Hour)}
+	if o.epoch {
+		tiedPool = []time.Time{unixEpoch.Add(-time.Hour), unixEpoch.Add(-time.Second), unixEpoch.Add(time.Second), unixEpoch.Add(48 * time.Hour)}
+	}
 	// dates are tied ACROSS permanodes only: within one permanode all claim dates are distinct
 	// (the docs say nothing about ties within a permanode)
 	usedByPN := map[string]bool{}
@@ -209,7 +279,7 @@ func genSearchWorldOpt(rng *rand.Rand, label string, nPN int, tiedTimes bool, ex
 		seq++
 		if tiedTimes {
 			d := tiedPool[rng.Intn(len(tiedPool))]
-			for usedByPN[curPN+d.String()] {
+			for usedByPN[curPN+d.String()] || d.Unix() == 0 { // (a claim dated within the epoch second is invalid)
 				d = d.Add(time.Second)
 			}
 			usedByPN[curPN+d.String()] = true
@@ -478,6 +548,14 @@ func genSearchWorldOpt(rng *rand.Rand, label string, nPN int, tiedTimes bool, ex
 			}
 		}
 	}
+	if o.epoch {
+		from := seq
+		w.genEpochFeatures(rng, label, claim)
+		w.epochSeqMid = (from + seq) / 2
+	}
+	if o.far {
+		w.genFarDates(rng, claim)
+	}
 	if dangling {
 		for i, pn := range w.pns {
 			if i%3 != 1 || len(w.pns) < 4 {
@@ -513,8 +591,131 @@ func genSearchWorldOpt(rng *rand.Rand, label string, nPN int, tiedTimes bool, ex
 			w.w.Claims = append(w.w.Claims, hw.ClaimInfo{Ref: db.Ref, Kind: "delete", Target: pn, Date: d, Signer: 1})
 		}
 	}
+	if o.epoch || o.far {
+		w.noteSpecialTimes()
+	}
 	sort.Slice(w.dates, func(i, j int) bool { return w.dates[i].Before(w.dates[j]) })
 	return w
+}
+
+var dateAttrCycle = []string{"dateCreated", "startDate", "paymentDueDate", "dateCreated", "datePublished", "dateModified"}
+
+// genEpochFeatures (worldOpts.epoch): every other permanode gets a date attribute whose instant is
+// the Unix epoch or right next to it, written in the usual zone notations; two permanodes without a
+// higher-priority date attribute get a camliContent file whose modtime is exactly the epoch.
+func (w *sworld) genEpochFeatures(rng *rand.Rand, label string, claim func(kind string, pn blob.Ref, attr, val string) time.Time) {
+	specials := []time.Time{unixEpoch, unixEpoch, unixEpoch.Add(-time.Second), unixEpoch.Add(time.Second), unixEpoch,
+		unixEpoch.Add(1), unixEpoch.Add(-1), unixEpoch.Add(999 * time.Millisecond), unixEpoch, unixEpoch.Add(-999 * time.Millisecond)}
+	off, k := rng.Intn(60), 0
+	for i, pn := range w.pns {
+		if i%7 == 6 || i%2 == 1 {
+			continue
+		}
+		k++
+		inst := specials[(off+k)%len(specials)]
+		attr := dateAttrCycle[(off/2+k)%len(dateAttrCycle)]
+		val, note := zoneNotation(inst, (off/3+k)%6)
+		claim(hw.Set, pn, attr, val)
+		w.dates = append(w.dates, inst)
+		w.features["date-attr/"+attr]++
+		w.features["date-attr/notation/"+note]++
+		w.features["epoch/date-attr-at-or-next-to-unix-epoch"]++
+	}
+	body := []byte("a file whose modification time is the Unix epoch: " + label)
+	fb, chunk := hw.FileOf("epoch.bin", body, unixEpoch)
+	w.add(chunk, "")
+	w.add(fb, "file")
+	w.files[fb.Ref] = &sfile{name: "epoch.bin", size: len(body), whole: chunk.Ref, mtime: unixEpoch}
+	w.chunkOf[fb.Ref] = chunk.Ref
+	w.names = append(w.names, "epoch.bin")
+	n := 0
+	for i, pn := range w.pns {
+		if i%7 == 6 || i%5 == 4 || i%2 == 0 || n >= 2 {
+			continue
+		}
+		shadowed := false
+		for _, a := range dateAttrsBeforeFile {
+			if _, ok := w.attrTime(pn, a); ok {
+				shadowed = true
+			}
+		}
+		if shadowed {
+			continue
+		}
+		claim(hw.Set, pn, "camliContent", fb.Ref.String())
+		w.features["epoch/camliContent-file-with-modtime-0"]++
+		n++
+	}
+	w.dates = append(w.dates, unixEpoch, unixEpoch.Add(time.Second), unixEpoch.Add(-time.Second), unixEpoch.Add(1), unixEpoch.Add(-1), unixEpoch.Add(500*time.Millisecond))
+}
+
+// genFarDates (worldOpts.far): date attributes outside the years 1678..2262 on every other permanode.
+func (w *sworld) genFarDates(rng *rand.Rand, claim func(kind string, pn blob.Ref, attr, val string) time.Time) {
+	off, k := rng.Intn(len(farDateValues)*6), 0
+	for i, pn := range w.pns {
+		if i%7 == 6 || i%2 == 1 {
+			continue
+		}
+		k++
+		val := farDateValues[(off+k)%len(farDateValues)]
+		attr := dateAttrCycle[(off/3+k)%len(dateAttrCycle)]
+		inst, err := time.Parse(time.RFC3339, val)
+		if err != nil {
+			panic(err)
+		}
+		claim(hw.Set, pn, attr, val)
+		w.dates = append(w.dates, inst)
+		w.features["date-attr/"+attr]++
+		w.features["date-attr/notation/"+zoneOf(val)]++
+		w.features["far/date-attr-outside-1678-2262"]++
+	}
+}
+
+// fitsInt64Nanos: the instant is representable as an int64 of nanoseconds since the Unix epoch.
+func fitsInt64Nanos(t time.Time) bool {
+	return !t.Before(time.Unix(0, -1<<63)) && !t.After(time.Unix(0, 1<<63-1))
+}
+
+// noteSpecialTimes records (evidence) which special creation / modification times the finished
+// world really has, after all priorities have been applied.
+func (w *sworld) noteSpecialTimes() {
+	for i, pn := range w.pns {
+		if w.del[pn] || i%5 == 4 {
+			continue
+		}
+		if t, ok := w.anyTime(pn); ok {
+			switch {
+			case t.Equal(unixEpoch):
+				w.features["created-time/exactly-unix-epoch"]++
+				if w.anyZone(pn) != "Z" {
+					w.features["created-time/exactly-unix-epoch-in-non-UTC-notation"]++
+				}
+			case t.Unix() == 0:
+				w.features["created-time/within-the-epoch-second"]++
+			case !fitsInt64Nanos(t) && t.Before(unixEpoch):
+				w.features["created-time/before-1678"]++
+			case !fitsInt64Nanos(t):
+				w.features["created-time/after-2262"]++
+			case t.Before(unixEpoch):
+				w.features["created-time/pre-1970"]++
+			default:
+				w.features["created-time/post-1970"]++
+			}
+			if t.Year() == 1 || t.Year() == 9999 {
+				w.features["created-time/year-1-or-9999"]++
+			}
+		}
+		if t, ok := w.modtime(pn); ok {
+			if t.Before(unixEpoch) {
+				w.features["mod-time/pre-1970"]++
+			} else {
+				w.features["mod-time/post-1970"]++
+			}
+			if d := t.Sub(unixEpoch); d >= -time.Second && d <= time.Second+time.Millisecond*999 {
+				w.features["mod-time/one-second-off-the-unix-epoch"]++
+			}
+		}
+	}
 }
 
 // zoneNotation writes the instant t as an RFC 3339 string in one of several zone notations.
